@@ -105,6 +105,9 @@ type item struct {
 	// knownNull is the signature predicate for a missing NULL propagation (argument nullArg
 	// was NULL, the non-NULL value v came back)
 	knownNull func(nullArg string, v any) string
+	// errOK: a failing evaluation satisfies the identity (the manual requires an error for
+	// this argument, e.g. an out-of-range result); check still decides a returned value
+	errOK bool
 }
 
 // runItems evaluates all items in one SELECT (falling back to one SELECT per item when the
@@ -161,6 +164,8 @@ func runItems(rt *rapid.T, st *stats.Collector, s *fx.Sess, as *argSet, items []
 			}
 		}
 		switch {
+		case errs[i] != nil && it.errOK && !wantNull:
+			st.Class("required-error")
 		case errs[i] != nil:
 			msg = "no error"
 			if wantNull {
